@@ -940,7 +940,20 @@ def act_case(mon, rng, c, mix):
     strat = Dr.make_script_strategy({}, obs, triggers if rng.random() < 0.5 else None)
     overdraft = rng.random() < 0.2  # Actuator(allow_negative_balance=True): the wallet may be overdrawn
     ctx.info["overdraft"] = overdraft
-    act = Dr.build_actuator(markets, frame.copy(), quote, b["assets"], strat, b["interval"], allow_negative_balance=overdraft)
+    feed = frame.copy()
+    if b["interval"] == "1min" and rng.random() < 0.3:
+        # a price feed denser than the bars: half-minute rows with other prices between the bars' own rows (a bar is valued at
+        # the row that carries its timestamp, wherever that row sits in the frame)
+        extra = feed.copy()
+        extra.index = extra.index + pd.Timedelta(seconds=30)
+        bump = {c: Decimal(str(round(rng.uniform(0.7, 1.4), 4))) for c in extra.columns}
+        for c in extra.columns:
+            if c != "USD":
+                extra[c] = [v * bump[c] for v in extra[c]]
+        feed = pd.concat([feed, extra]).sort_index()
+        ctx.info["dense_price_feed"] = True
+        mon.hit("runs-with-dense-price-feed")
+    act = Dr.build_actuator(markets, feed, quote, b["assets"], strat, b["interval"], allow_negative_balance=overdraft)
     for fn in b.get("pre", ()):
         Dr.call_op(fn)
     records = []
